@@ -33,6 +33,7 @@ def dispatch (op : String) (j : Json) : Except String Json :=
   | "c08" => c08 j
   | "c17" => c17 j
   | "c20.mft" => c20Mft j
+  | "c20.acyclic" => c20Acyclic j
   | "ping" => pure (Json.str "pong")
   | _ => throw s!"unknown op {op}"
 
